@@ -303,16 +303,41 @@ func (x *Exec) loopHead(fr *Frame, li *loopInfo, cur *State, ins []edgeIn) {
 	for k := range log.heap {
 		mods.whole[k] = true
 	}
-	if li.lc != nil {
+	li.frame = nil
+	if li.lc != nil && len(li.lc.Modifies) > 0 && !log.all {
+		// a declared loop frame: written arrays change only at the declared objects (checked on every back edge);
+		// arrays the frame does not mention change only at objects allocated inside the loop
 		env := x.loopEnv(fr, li, cur, entryPhi)
-		extra := x.buildModSet(env, li.lc.Modifies, false)
-		for k := range extra.whole {
-			mods.whole[k] = true
-		}
-		if extra.all {
+		decl := x.buildModSet(env, li.lc.Modifies, false)
+		if decl.all {
 			mods.all = true
+		} else {
+			precise := &ModSet{whole: map[string]bool{}, refs: map[string][]Term{}, allocates: true, ghosts: decl.ghosts}
+			for k := range decl.whole {
+				precise.whole[k] = true
+			}
+			for k, r := range decl.refs {
+				precise.refs[k] = r
+			}
+			for k := range log.heap {
+				if w, _, touched := decl.lookup(k); !w && !touched {
+					precise.refs[k] = append(precise.refs[k]) // touched, no old object may change
+					if _, ok := precise.refs[k]; !ok {
+						precise.refs[k] = []Term{}
+					}
+				}
+			}
+			mods = precise
+			li.frame = decl
+			li.frameWM = cur.wm
+			li.frameNames = nil
+			for k := range log.heap {
+				li.frameNames = append(li.frameNames, k)
+			}
+			sort.Strings(li.frameNames)
 		}
 	}
+	li.headSnapBefore = cur.snap()
 	x.frameEpoch(cur, mods)
 	var cellList []*ssa.Alloc
 	for a := range log.cells {
@@ -453,9 +478,16 @@ func (x *Exec) havocShape(hint string, v Value) Value {
 }
 
 func (x *Exec) backEdge(fr *Frame, li *loopInfo, from *ssa.BasicBlock, st *State) {
-	if fr.discover != nil && fr.discover.li == li {
-		*fr.discover.finals = append(*fr.discover.finals, st)
-		return
+	if fr.discover != nil {
+		if fr.discover.li == li {
+			*fr.discover.finals = append(*fr.discover.finals, st)
+		} else if li.body[fr.discover.li.header] {
+			// a jump from the loop being explored back to an enclosing loop's header ends the iteration too
+			*fr.discover.finals = append(*fr.discover.finals, st)
+		}
+		if li.headState == nil || fr.discover.li == li || li.body[fr.discover.li.header] {
+			return
+		}
 	}
 	fkey := x.P.funcKey(fr.fn)
 	// phi values along this edge
@@ -511,6 +543,34 @@ func (x *Exec) backEdge(fr *Frame, li *loopInfo, from *ssa.BasicBlock, st *State
 	for _, a := range li.autos {
 		g := a.f(x, fr, st, li, phi)
 		x.check(st, "inv-step", nil, li.pos, li.key+": auto "+a.text, g)
+	}
+	// declared loop frame: objects outside it are unchanged since the loop head
+	if li.frame != nil && li.headState != nil {
+		for _, name := range li.frameNames {
+			for an, srt := range x.heapSorts {
+				if !(an == name || strings.HasPrefix(an, name+".") || strings.HasPrefix(an, name+"|")) {
+					continue
+				}
+				if !strings.HasPrefix(string(srt), "(Array Int ") {
+					continue
+				}
+				whole, refs, _ := li.frame.lookup(an)
+				if whole {
+					continue
+				}
+				after := x.heapGet(st, an, srt)
+				before := x.heapGet(li.headState, an, srt)
+				if after.S == before.S {
+					continue
+				}
+				r := x.fresh("fr", SInt)
+				conds := []Term{Le(IntLit(0), r), Le(r, li.frameWM)}
+				for _, rr := range refs {
+					conds = append(conds, Not(Eq(r, rr)))
+				}
+				x.check(st, "frame", nil, li.pos, li.key+": only declared objects change in "+an, Implies(And(conds...), Eq(Select(after, r), Select(before, r))))
+			}
+		}
 	}
 	if li.lc == nil || li.lc.Decreases == nil {
 		if li.autoMeasure != nil && len(li.measure0) == 1 {
